@@ -4,7 +4,7 @@
    In a fresh scratch worktree of /repo HEAD: (1) demo without the change must pass, (2) with the change the project
    builds and the touched packages' existing tests pass (TestConjureLibConfigResolveBlocklisted is the baseline's
    always-failing test), (3) the demo fails.  Writes seeded/<name>/{patch.diff,demo/,meta.json(+confirmed)}."""
-import json, os, re, shutil, subprocess, sys
+import json, os, re, shutil, subprocess, sys, time
 src, name = os.path.abspath(sys.argv[1]), sys.argv[2]
 V = "/verif"
 wt = "/tmp/seedconf_" + name
@@ -48,12 +48,18 @@ try:
     for fn in os.listdir(os.path.join(src, "demo")):
         if fn.endswith(".go"):
             shutil.copy(os.path.join(src, "demo", fn), os.path.join(wt, pkgdir, fn))
+    # the existing tests bind fixed local ports: another go test running on this box at the same moment makes them
+    # fail (EADDRINUSE) or hang until the 10-minute test timeout - that says nothing about the change; retry once, alone
+    if re.search(r"address already in use|Expected nil, but got: 0x62|test timed out", os_):
+        out["suite_retried"] = True
+        time.sleep(20)
+        rcs, os_ = sh(suite_cmd)
     fails = set(re.findall(r"--- FAIL: (\S+)", os_)) - {"TestConjureLibConfigResolveBlocklisted"}
     fails = {f for f in fails if "SeedDemo" not in f and "Seed" not in f}
     build_fail = "[build failed]" in os_ or "cannot" in os_ and "undefined" in os_
     out["suite_with_change"] = "pass" if not fails and not build_fail and "panic:" not in os_ else "fail"
     out["suite_failed_tests"] = sorted(fails)
-    out["suite_tail"] = os_[-500:]
+    out["suite_tail"] = os_[-2500:]
     rc1, o1 = sh(demo_cmd)
     out["demo_with_change"] = "fail" if rc1 != 0 else "pass"
     out["demo_with_tail"] = o1[-900:]
